@@ -133,4 +133,402 @@ theorem commit_blockBatch_lookups (p : Params) (m : Mem) (b : Block) (db : Block
   · intro h hh
     exact foldl_upd_other b.txs db.txAt (fun x => (x, b.header.height)) h hh
 
+/-! ### the chain invariant -/
+
+/-- no hash collision between `b` and what the ledger already holds: a stored block with the hash of `b` is `b`, a
+cached header with that hash is the header of `b` -/
+def NoColl (s : State) (b : Block) : Prop :=
+  (∀ blk, s.dur.blocks.blockAt b.header.hash = some blk → blk = b) ∧
+  (∀ hd ∈ s.mem.cache, hd.hash = b.header.hash → hd = b.header)
+
+/-- a header delivered ahead of its block does not collide with a stored block -/
+def NoCollH (s : State) (hd : Header) : Prop :=
+  ∀ blk, s.dur.blocks.blockAt hd.hash = some blk → blk.header = hd
+
+/-- the committed blocks form one hash-linked chain with strictly increasing timestamps, the block accumulator holds
+exactly their previous-block hashes, nothing else is stored, and cached headers agree with stored blocks -/
+structure Chain (g : Block) (s : State) : Prop where
+  tip : s.dur.blocks.hashAt s.mem.currHeight = some s.mem.currHash
+  stored : ∀ i, i ≤ s.mem.currHeight → ∃ blk, s.dur.blocks.hashAt i = some blk.header.hash ∧
+    s.dur.blocks.blockAt blk.header.hash = some blk ∧ blk.header.height = i
+  linked : ∀ i bi bj, i < s.mem.currHeight →
+    s.dur.blocks.hashAt i = some bi.header.hash → s.dur.blocks.blockAt bi.header.hash = some bi →
+    s.dur.blocks.hashAt (i + 1) = some bj.header.hash → s.dur.blocks.blockAt bj.header.hash = some bj →
+    bj.header.prev = bi.header.hash ∧ bi.header.timestamp < bj.header.timestamp
+  acc : s.mem.blockTree = g.header.prev :: (List.range s.mem.currHeight).map (fun i => (s.dur.blocks.hashAt i).getD [])
+  bounded : ∀ h blk, s.dur.blocks.blockAt h = some blk → blk.header.hash = h ∧ blk.header.height ≤ s.mem.currHeight
+  cacheOK : ∀ hd ∈ s.mem.cache, ∀ blk, s.dur.blocks.blockAt hd.hash = some blk → blk.header = hd
+
+theorem cacheFind_some (c : List Header) (h : Hash) (hd : Header) (hf : cacheFind c h = some hd) :
+    hd ∈ c ∧ hd.hash = h := by
+  unfold cacheFind at hf
+  have h1 := List.find?_some hf
+  have h2 := List.mem_of_find?_eq_some hf
+  exact ⟨h2, by simpa using h1⟩
+
+/-- the header `verifyHeader` finds for the tip hash is the header of the tip block -/
+theorem headerByHash_tip (g : Block) (s : State) (hc : Chain g s) (prevH : Header) (tipB : Block)
+    (ht : s.dur.blocks.blockAt s.mem.currHash = some tipB)
+    (h : headerByHash s s.mem.currHash = some prevH) : prevH = tipB.header := by
+  unfold headerByHash at h
+  split at h
+  · rename_i hd hf
+    injection h with h
+    subst h
+    obtain ⟨hm, hh⟩ := cacheFind_some _ _ _ hf
+    have := hc.cacheOK hd hm tipB (by rw [hh]; exact ht)
+    exact this.symm
+  · rw [ht] at h
+    simpa using h.symm
+
+/-- one committed block extends the chain -/
+theorem chain_step (g : Block) (s s' : State) (b : Block) (hc : Chain g s)
+    (hh : b.header.height = s.mem.currHeight + 1) (hprev : b.header.prev = s.mem.currHash)
+    (hts : ∃ prevH, headerByHash s s.mem.currHash = some prevH ∧ prevH.timestamp < b.header.timestamp)
+    (hnc : NoColl s b)
+    (e1 : s'.mem.currHeight = b.header.height) (e2 : s'.mem.currHash = b.header.hash)
+    (e3 : s'.dur.blocks.hashAt b.header.height = some b.header.hash)
+    (e4 : ∀ i, i ≠ b.header.height → s'.dur.blocks.hashAt i = s.dur.blocks.hashAt i)
+    (e5 : s'.dur.blocks.blockAt b.header.hash = some b)
+    (e6 : ∀ h, h ≠ b.header.hash → s'.dur.blocks.blockAt h = s.dur.blocks.blockAt h)
+    (e7 : s'.mem.blockTree = s.mem.blockTree ++ [b.header.prev])
+    (e8 : ∀ hd ∈ s'.mem.cache, hd ∈ s.mem.cache) : Chain g s' := by
+  have old_ne : ∀ blk : Block, s.dur.blocks.blockAt blk.header.hash = some blk → blk.header.height ≤ s.mem.currHeight →
+      blk.header.hash ≠ b.header.hash := by
+    intro blk hb hle e
+    rw [e] at hb
+    have := hnc.1 blk hb
+    subst this
+    omega
+  obtain ⟨tipB, t1, t2, t3⟩ := hc.stored s.mem.currHeight (Nat.le_refl _)
+  have htipHash : tipB.header.hash = s.mem.currHash := by
+    rw [hc.tip] at t1; exact (Option.some.inj t1).symm
+  have htipNe : s.mem.currHash ≠ b.header.hash := by
+    rw [← htipHash]; exact old_ne tipB t2 (by omega)
+  constructor
+  · rw [e1, e2]; exact e3
+  · intro i hi
+    rw [e1, hh] at hi
+    by_cases hi' : i = s.mem.currHeight + 1
+    · subst hi'
+      exact ⟨b, by rw [← hh]; exact e3, e5, hh⟩
+    · obtain ⟨blk, a1, a2, a3⟩ := hc.stored i (by omega)
+      refine ⟨blk, ?_, ?_, a3⟩
+      · rw [e4 i (by omega)]; exact a1
+      · rw [e6 _ (old_ne blk a2 (by omega))]; exact a2
+  · intro i bi bj hi h1 h2 h3 h4
+    rw [e1, hh] at hi
+    have hbi : bi.header.hash ≠ b.header.hash := by
+      obtain ⟨blk, a1, a2, a3⟩ := hc.stored i (by omega)
+      rw [e4 i (by omega), a1] at h1
+      have : blk.header.hash = bi.header.hash := Option.some.inj h1
+      rw [← this]
+      exact old_ne blk a2 (by omega)
+    rw [e4 i (by omega)] at h1
+    rw [e6 _ hbi] at h2
+    by_cases hi' : i < s.mem.currHeight
+    · have hbj : bj.header.hash ≠ b.header.hash := by
+        obtain ⟨blk, a1, a2, a3⟩ := hc.stored (i + 1) (by omega)
+        rw [e4 (i + 1) (by omega), a1] at h3
+        have : blk.header.hash = bj.header.hash := Option.some.inj h3
+        rw [← this]
+        exact old_ne blk a2 (by omega)
+      rw [e4 (i + 1) (by omega)] at h3
+      rw [e6 _ hbj] at h4
+      exact hc.linked i bi bj hi' h1 h2 h3 h4
+    · have hic : i = s.mem.currHeight := by omega
+      subst hic
+      rw [← hh, e3] at h3
+      have hj : bj.header.hash = b.header.hash := (Option.some.inj h3).symm
+      rw [hj, e5] at h4
+      have hbj : bj = b := (Option.some.inj h4).symm
+      subst hbj
+      rw [hc.tip] at h1
+      have hbih : bi.header.hash = s.mem.currHash := (Option.some.inj h1).symm
+      refine ⟨by rw [hprev, hbih], ?_⟩
+      obtain ⟨prevH, p1, p2⟩ := hts
+      rw [hbih] at h2
+      have := headerByHash_tip g s hc prevH bi h2 p1
+      rw [← this]; exact p2
+  · rw [e7, hc.acc, e1, hh, List.range_succ, List.map_append]
+    simp only [List.cons_append, List.map_cons, List.map_nil]
+    congr 1
+    congr 1
+    · apply List.map_congr_left
+      intro i hi
+      rw [List.mem_range] at hi
+      rw [e4 i (by omega)]
+    · rw [e4 _ (by omega), hc.tip, hprev]; rfl
+  · intro h blk hb
+    by_cases hhb : h = b.header.hash
+    · subst hhb
+      rw [e5] at hb
+      have : blk = b := (Option.some.inj hb).symm
+      subst this
+      exact ⟨rfl, by omega⟩
+    · rw [e6 h hhb] at hb
+      obtain ⟨a1, a2⟩ := hc.bounded h blk hb
+      exact ⟨a1, by omega⟩
+  · intro hd hm blk hb
+    have hm' := e8 hd hm
+    by_cases hhb : hd.hash = b.header.hash
+    · rw [hhb, e5] at hb
+      have : blk = b := (Option.some.inj hb).symm
+      subst this
+      exact (hnc.2 hd hm' hhb).symm
+    · rw [e6 _ hhb] at hb
+      exact hc.cacheOK hd hm' blk hb
+
+
+
+/-- the chain invariant only depends on the block store, the tip, the block accumulator and the header cache -/
+theorem chain_of_same (g : Block) (s t : State) (hc : Chain g s) (hb : t.dur.blocks = s.dur.blocks)
+    (h1 : t.mem.currHeight = s.mem.currHeight) (h2 : t.mem.currHash = s.mem.currHash)
+    (h3 : t.mem.blockTree = s.mem.blockTree)
+    (h4 : ∀ hd ∈ t.mem.cache, hd ∈ s.mem.cache ∨ NoCollH s hd) : Chain g t := by
+  constructor
+  · rw [hb, h1, h2]; exact hc.tip
+  · rw [hb, h1]; exact hc.stored
+  · rw [hb, h1]; exact hc.linked
+  · rw [hb, h1, h3]; exact hc.acc
+  · rw [hb, h1]; exact hc.bounded
+  · intro hd hm blk hblk
+    rw [hb] at hblk
+    rcases h4 hd hm with h | h
+    · exact hc.cacheOK hd h blk hblk
+    · exact h blk hblk
+
+/-- facts about the state `submitBlock` builds, in the form `chain_step` wants them -/
+theorem submitted_facts (p : Params) (s : State) (b : Block) (res : ExecResult) :
+    let t := submitted p s b res
+    t.mem.currHeight = b.header.height ∧ t.mem.currHash = b.header.hash ∧
+    t.dur.blocks.hashAt b.header.height = some b.header.hash ∧
+    (∀ i, i ≠ b.header.height → t.dur.blocks.hashAt i = s.dur.blocks.hashAt i) ∧
+    t.dur.blocks.blockAt b.header.hash = some b ∧
+    (∀ h, h ≠ b.header.hash → t.dur.blocks.blockAt h = s.dur.blocks.blockAt h) ∧
+    t.mem.blockTree = s.mem.blockTree ++ [b.header.prev] ∧
+    t.mem.cache = s.mem.cache := by
+  obtain ⟨-, -, b3, b4⟩ := commit_blockBatch p s.mem b s.dur.blocks
+  obtain ⟨-, l2, l3, -⟩ := commit_blockBatch_lookups p s.mem b s.dur.blocks
+  refine ⟨rfl, rfl, ?_, ?_, ?_, ?_, ?_, ?_⟩
+  · simpa [submitted, persisted, fillAll] using b3
+  · intro i hi; simpa [submitted, persisted, fillAll] using l2 i hi
+  · simpa [submitted, persisted, fillAll] using b4
+  · intro h hh; simpa [submitted, persisted, fillAll] using l3 h hh
+  · simp [submitted, fillAll, fillMem, newBlockTree]
+  · simp only [submitted, fillAll, fillMem, fillBlockMem]
+    have : (indexMem p (setIndex s.mem b.header.height b.header.hash)).cache = (setIndex s.mem b.header.height b.header.hash).cache := by
+      unfold indexMem; split <;> rfl
+    rw [this]; rfl
+
+theorem mem_cacheDel (c : List Header) (h : Hash) (hd : Header) (hm : hd ∈ cacheDel c h) : hd ∈ c := by
+  unfold cacheDel at hm
+  exact (List.mem_filter.mp hm).1
+
+theorem mem_cacheAdd (c : List Header) (x hd : Header) (hm : hd ∈ cacheAdd c x) : hd = x ∨ hd ∈ c := by
+  unfold cacheAdd at hm
+  simp only [List.mem_cons] at hm
+  rcases hm with h | h
+  · exact Or.inl h
+  · exact Or.inr (List.mem_filter.mp h).1
+
+/-- a successfully added block keeps the chain invariant -/
+theorem addBlock_chain (p : Params) (g : Block) (s s' : State) (b : Block) (root : Hash) (hc : Chain g s)
+    (hnc : NoColl s b) (h : addBlock p s b root = .ok s') : Chain g s' := by
+  rcases addBlock_cases p s s' b root h with ⟨-, e⟩ | ⟨hh, ⟨set, hv, e⟩, -, hg⟩
+  · subst e; exact hc
+  · subst e
+    have h0 : b.header.height ≠ 0 := by omega
+    obtain ⟨g1, -⟩ := submitGuards_ok p s b h0 hg
+    obtain ⟨⟨prev, hp, -, hpt⟩, -, -, -⟩ := verifyHeader_ok p s b.header s.mem.peersB set h0 hv
+    rw [g1] at hp
+    obtain ⟨f1, f2, f3, f4, f5, f6, f7, f8⟩ := submitted_facts p s b (executeBlock p s b).1
+    refine chain_step g s _ b hc hh g1 ⟨prev, hp, hpt⟩ hnc f1 f2 f3 f4 f5 f6 f7 ?_
+    intro hd hm
+    have : hd ∈ (submitted p s b (executeBlock p s b).1).mem.cache := mem_cacheDel _ _ _ hm
+    rw [f8] at this; exact this
+
+theorem submitChecked_chain (p : Params) (g : Block) (s s' : State) (b : Block) (hc : Chain g s)
+    (hnc : NoColl s b) (h : submitChecked p s b = .ok s') : Chain g s' := by
+  rcases submitChecked_cases p s s' b h with ⟨-, e⟩ | ⟨hh, ⟨set, hv, e⟩, hg⟩
+  · subst e; exact hc
+  · subst e
+    have h0 : b.header.height ≠ 0 := by omega
+    obtain ⟨g1, -⟩ := submitGuards_ok p s b h0 hg
+    obtain ⟨⟨prev, hp, -, hpt⟩, -, -, -⟩ := verifyHeader_ok p s b.header s.mem.peersB set h0 hv
+    rw [g1] at hp
+    obtain ⟨f1, f2, f3, f4, f5, f6, f7, f8⟩ := submitted_facts p s b (executeBlock p s b).1
+    refine chain_step g s _ b hc hh g1 ⟨prev, hp, hpt⟩ hnc f1 f2 f3 f4 f5 f6 f7 ?_
+    intro hd hm
+    have : hd ∈ (submitted p s b (executeBlock p s b).1).mem.cache := mem_cacheDel _ _ _ hm
+    rw [f8] at this; exact this
+
+/-- the durable state a crash behind the first commit recovers to is the one of the complete submission, which
+extends the chain when the submission passes the checks of `AddBlock` -/
+theorem submitted_chain (p : Params) (g : Block) (s s'' : State) (b : Block) (root : Hash) (hc : Chain g s)
+    (hnc : NoColl s b) (hh : b.header.height = s.mem.currHeight + 1) (h : addBlock p s b root = .ok s'') :
+    Chain g (submitted p s b (p.exec s.dur.states.kv b)) := by
+  rcases addBlock_cases p s s'' b root h with ⟨hle, -⟩ | ⟨-, ⟨set, hv, -⟩, -, hg⟩
+  · omega
+  · have h0 : b.header.height ≠ 0 := by omega
+    obtain ⟨g1, -⟩ := submitGuards_ok p s b h0 hg
+    obtain ⟨⟨prev, hp, -, hpt⟩, -, -, -⟩ := verifyHeader_ok p s b.header s.mem.peersB set h0 hv
+    rw [g1] at hp
+    obtain ⟨f1, f2, f3, f4, f5, f6, f7, f8⟩ := submitted_facts p s b (p.exec s.dur.states.kv b)
+    refine chain_step g s _ b hc hh g1 ⟨prev, hp, hpt⟩ hnc f1 f2 f3 f4 f5 f6 f7 ?_
+    intro hd hm
+    rw [f8] at hm; exact hm
+
+theorem addHeader_chain (p : Params) (g : Block) (s s' : State) (hd : Header) (hc : Chain g s)
+    (hnc : NoCollH s hd) (h : addHeader p s hd = .ok s') : Chain g s' := by
+  unfold addHeader at h
+  split at h
+  · cases h
+  · split at h
+    · cases h
+    · injection h with h
+      subst h
+      refine chain_of_same g s _ hc rfl rfl rfl rfl ?_
+      intro x hx
+      have : x ∈ cacheAdd s.mem.cache hd := hx
+      rcases mem_cacheAdd _ _ _ this with e | e
+      · subst e; exact Or.inr hnc
+      · exact Or.inl e
+
+
+
+theorem reopen_synced_mem (p : Params) (g : Block) (s t : State) (d : Durable) (hs : Synced s) (hd : SameStores d s)
+    (h : reopen p g d = .ok t) : t.mem.cache = [] ∧ t.mem.blockTree = s.mem.blockTree := by
+  rw [reopen_synced p g s d hs hd] at h
+  split at h
+  · cases h
+  · split at h
+    · cases h
+    · unfold withPeers at h
+      split at h
+      · cases h
+      · injection h with h; subst h
+        exact ⟨rfl, rfl⟩
+
+/-- a restart keeps the chain invariant -/
+theorem reopen_chain (p : Params) (g : Block) (s t : State) (d : Durable) (hs : Synced s) (hc : Chain g s)
+    (hd : SameStores d s) (h : reopen p g d = .ok t) : Chain g t := by
+  obtain ⟨e1, -, e3, e4⟩ := reopen_synced_ok p g s t d hs hd h
+  obtain ⟨m1, m2⟩ := reopen_synced_mem p g s t d hs hd h
+  refine chain_of_same g s t hc (by rw [e1]; exact hd.1) e3 e4 m2 ?_
+  intro x hx
+  rw [m1] at hx
+  cases hx
+
+/-- the empty ledger a first start begins with -/
+def gen0 : State := { dur := Durable.empty, mem := emptyMem }
+
+/-- the genesis block submitted to the empty ledger -/
+def genSubmitted (p : Params) (g : Block) : State := submitted p gen0 g (executeBlock p gen0 g).1
+
+theorem initLedger_form (p : Params) (g : Block) (s : State) (h : initLedger p g = .ok s) :
+    ∃ set, s.dur = { (genSubmitted p g).dur with blocks := { (genSubmitted p g).dur.blocks with version := true } } ∧
+      s.mem = { (genSubmitted p g).mem with peersH := set, peersB := set } := by
+  unfold initLedger reopen at h
+  rw [openState_empty] at h
+  simp only [Durable.empty, BlockDB.empty, Bool.not_false, if_true] at h
+  split at h
+  · cases h
+  · rename_i s1 hs1
+    unfold initGenesis at hs1
+    simp only at hs1
+    split at hs1
+    · cases hs1
+    · rename_i s2 hs2
+      injection hs1 with hs1
+      subst hs1
+      obtain ⟨e, -⟩ := submitBlock_eq p _ s2 g _ hs2
+      subst e
+      unfold withPeers at h
+      split at h
+      · cases h
+      · rename_i set _
+        injection h with h
+        subst h
+        exact ⟨set, rfl, rfl⟩
+
+/-- the ledger after the first start is a chain of one block -/
+theorem initLedger_chain (p : Params) (g : Block) (s : State) (hg : g.header.height = 0)
+    (h : initLedger p g = .ok s) : Chain g s := by
+  obtain ⟨set, hd, hm⟩ := initLedger_form p g s h
+  obtain ⟨f1, f2, f3, f4, f5, f6, f7, f8⟩ := submitted_facts p gen0 g (executeBlock p gen0 g).1
+  have k1 : s.mem.currHeight = g.header.height := by rw [hm]; exact f1
+  have k2 : s.mem.currHash = g.header.hash := by rw [hm]; exact f2
+  have k3 : s.dur.blocks.hashAt = (genSubmitted p g).dur.blocks.hashAt := by rw [hd]
+  have k4 : s.dur.blocks.blockAt = (genSubmitted p g).dur.blocks.blockAt := by rw [hd]
+  have k5 : s.mem.blockTree = [g.header.prev] := by rw [hm]; exact f7
+  have k6 : s.mem.cache = [] := by rw [hm]; exact f8
+  constructor
+  · rw [k1, k2, k3]; exact f3
+  · intro i hi
+    rw [k1, hg] at hi
+    have hi0 : i = 0 := by omega
+    subst hi0
+    exact ⟨g, by rw [k3, ← hg]; exact f3, by rw [k4]; exact f5, hg⟩
+  · intro i bi bj hi
+    rw [k1, hg] at hi
+    omega
+  · rw [k5, k1, hg]; rfl
+  · intro x blk hb
+    rw [k4] at hb
+    unfold genSubmitted at hb
+    by_cases hx : x = g.header.hash
+    · subst hx
+      rw [f5] at hb
+      have : blk = g := (Option.some.inj hb).symm
+      subst this
+      exact ⟨rfl, by rw [k1]; exact Nat.le_refl _⟩
+    · rw [f6 x hx] at hb
+      cases hb
+  · intro hd' hm'
+    rw [k6] at hm'
+    cases hm'
+
+
+/-- ledgers reachable by histories in which every crash interrupts a submission that passes the checks of
+`AddBlock`, and in which no two different blocks / headers carry the same hash -/
+inductive ReachV (p : Params) (g : Block) : State → Prop
+  | init {s} : initLedger p g = .ok s → ReachV p g s
+  | add {s s'} (b : Block) (root : Hash) : ReachV p g s → NoColl s b → addBlock p s b root = .ok s' → ReachV p g s'
+  | sub {s s'} (b : Block) : ReachV p g s → NoColl s b → submitChecked p s b = .ok s' → ReachV p g s'
+  | hdr {s s'} (hd : Header) : ReachV p g s → NoCollH s hd → addHeader p s hd = .ok s' → ReachV p g s'
+  | restart {s s'} : ReachV p g s → reopen p g s.dur = .ok s' → ReachV p g s'
+  | crash {s s' s''} (b : Block) (root : Hash) (k : Nat) : ReachV p g s → NoColl s b →
+      b.header.height = s.mem.currHeight + 1 → addBlock p s b root = .ok s'' → k ≤ 3 →
+      reopen p g (crashD p s b k) = .ok s' → ReachV p g s'
+
+theorem reachV_reach (p : Params) (g : Block) (s : State) (h : ReachV p g s) : Reach p g s := by
+  induction h with
+  | init h => exact Reach.init h
+  | add b root _ _ h ih => exact Reach.add b root ih h
+  | sub b _ _ h ih => exact Reach.sub b ih h
+  | hdr hd _ _ h ih => exact Reach.hdr hd ih h
+  | restart _ h ih => exact Reach.restart ih h
+  | crash b root k _ _ hh _ hk h ih => exact Reach.crash b k ih hh hk h
+
+/-- **chain invariant over all such histories** -/
+theorem reachV_chain (p : Params) (g : Block) (hg : g.header.height = 0) (s : State) (h : ReachV p g s) : Chain g s := by
+  induction h with
+  | init h => exact initLedger_chain p g _ hg h
+  | add b root _ hn h ih => exact addBlock_chain p g _ _ b root ih hn h
+  | sub b _ hn h ih => exact submitChecked_chain p g _ _ b ih hn h
+  | hdr hd _ hn h ih => exact addHeader_chain p g _ _ hd ih hn h
+  | @restart s0 s1 hr h ih =>
+    have hs := reach_synced p g hg s0 (reachV_reach p g s0 hr)
+    exact reopen_chain p g s0 s1 _ hs ih (sameStores_self s0 hs) h
+  | @crash s0 s1 s2 b root k hr hn hh ha hk h ih =>
+    have hs := reach_synced p g hg s0 (reachV_reach p g s0 hr)
+    by_cases h0 : k = 0
+    · subst h0
+      exact reopen_chain p g s0 s1 _ hs ih (crashD0_same p s0 b hs) h
+    · rw [reopen_crash_ge1 p g s0 b k hs hh (by omega) hk, ← submitted_dur] at h
+      have hs3 := submitted_synced_next p s0 b (p.exec s0.dur.states.kv b) hs hh
+      have hc3 := submitted_chain p g s0 s2 b root ih hn hh ha
+      exact reopen_chain p g _ s1 _ hs3 hc3 (sameStores_self _ hs3) h
+
 end Poly.Model.Ledger
